@@ -316,7 +316,7 @@ Definition pm_body (mode : pmode) (w : lw) : step lw pm_result :=
         let w2 := mkLw (l_ds w1) (l_rc w1) s (l_win w1) in
         let need_more : outcome bool :=
           match mode with
-          | Partial => if nlen buf <? MAX_REQUIRED_INPUT then try_process_next w2 buf else Done false
+          | Partial => if snd buf <? MAX_REQUIRED_INPUT then try_process_next w2 (visible buf) else Done false
           | FinishMode => Done false
           end in
         match need_more with
